@@ -801,6 +801,17 @@ func (c *kase) tamper(p *parts, op fx.Ev) error {
 			p.fee = 0
 		}
 		p.fee++
+	case "req2_paid", "req2_unpaid":
+		// a second request of the same contract: no reads, no writes, uses one cpu unit (= 1 gas) and declares exactly that
+		r2 := c.request([]step{{Op: "use", V: "c", A: 1}}, 0)
+		r2.ResourceLimits = []*protos.ResourceLimit{{Type: protos.ResourceType_CPU, Limit: cpuUnit}}
+		p.reqs = append(p.reqs, r2)
+		if op.Str("tk") == "req2_paid" {
+			if p.fee < 0 {
+				p.fee = 0
+			}
+			p.fee++
+		}
 	case "amt_req":
 		p.reqs[0].Amount = strconv.Itoa(c.amt + 1)
 	case "amt_out":
